@@ -40,7 +40,7 @@ RE_CHAR = re.compile(
 RE_LINE_COMMENT = re.compile(r"//(?!/|!).*")
 RE_BLOCK_COMMENT = re.compile(r"/\*(?:[^*/]|\*(?!/)|/(?!\*)|(?R))*\*/")
 
-ESCAPES = frozenset(["n", "r", "t", "u", "x", "\\", '"', "0", "'"])
+RE_ESCAPE = re.compile(r"[\\\"rnt0']|x[0-9a-fA-F]{2}|u\{[0-9a-fA-F]{2,6}\}")
 
 
 def tokenize(grammar: str) -> list[Token]:
@@ -404,9 +404,7 @@ class Scanner:
             c = self.next()
 
             if c == "\\":
-                peeked = self.peek()
-                if peeked in ESCAPES:
-                    self.next()
+                if self.scan(RE_ESCAPE):
                     needs_unescaping = True
                 else:
                     self.error("invalid escape")
@@ -443,9 +441,7 @@ class Scanner:
             c = self.next()
 
             if c == "\\":
-                peeked = self.peek()
-                if peeked in ESCAPES:
-                    self.next()
+                if self.scan(RE_ESCAPE):
                     needs_unescaping = True
                 else:
                     self.error("invalid escape")
